@@ -48,6 +48,7 @@ type Loc struct {
 	RootT   types.Type
 	RootVal *Term // immutable root (slice element reads): value of type RootT
 	Path    []PathStep
+	Cond    *Term // conditional location (writes apply only when Cond holds)
 }
 
 func (l *Loc) Type() types.Type {
@@ -326,7 +327,11 @@ func (x *Exec) writeLoc(s *State, l *Loc, v Value) {
 	case l.Ref != nil:
 		vt := x.termOf(s, v)
 		cur := x.heapRead(s, l.Ref, l.RootT)
-		x.heapWrite(s, l.Ref, l.RootT, x.updatePath(cur, l.RootT, l.Path, vt))
+		nv := x.updatePath(cur, l.RootT, l.Path, vt)
+		if l.Cond != nil {
+			nv = Ite(l.Cond, nv, cur)
+		}
+		x.heapWrite(s, l.Ref, l.RootT, nv)
 	default:
 		panic(x.subsetf("store through a slice element pointer (slices are modelled as immutable sequences)"))
 	}
